@@ -87,11 +87,18 @@ def mzi_programs():
     import math
     progs = []
     for k, phi in enumerate([0.0, 0.4, math.pi / 2, 2.1, math.pi, 4.0, 5.5, 2 * math.pi, -1.3, 7.9]):
-        for variant in range(3):
+        for variant in range(5):
             steps = [{"kind": "op", "gate": "BS", "targets": [0, 2], "entry": "ce", "h": 0, "params": {"eta": math.pi / 4}}]
+            if variant == 3:
+                # the input mode sits in a combined envelope stored polarization-first
+                steps = [{"kind": "struct", "what": "env_combine", "env": 0}, {"kind": "struct", "what": "env_reorder", "env": 0, "targets": [1, 0]}] + steps
+            if variant == 4:
+                # the empty mode sits in a combined envelope whose polarization was rotated (density-matrix level)
+                steps = [{"kind": "struct", "what": "set_contraction", "on": False}, {"kind": "struct", "what": "env_combine", "env": 1},
+                         {"kind": "op", "gate": "H", "targets": [3], "entry": "env"}, {"kind": "struct", "what": "expand", "entry": "env", "targets": [2]}] + steps
             if variant == 1:
                 steps = [{"kind": "struct", "what": "set_contraction", "on": False}] + steps + [{"kind": "struct", "what": "expand", "entry": "ce", "h": 0, "targets": [0]}]
-            arm = 0 if variant != 2 else 2
+            arm = 0 if variant not in (2, 4) else 2
             steps.append({"kind": "op", "gate": "PhaseShift", "targets": [arm], "entry": ["state", "ce", "env"][k % 3], "h": 0, "params": {"phi": phi}})
             steps.append({"kind": "op", "gate": "BS", "targets": [0, 2], "entry": "ce", "h": 0, "params": {"eta": math.pi / 4}})
             s2, c2 = math.sin(phi / 2) ** 2, math.cos(phi / 2) ** 2
@@ -146,12 +153,21 @@ def replay_known(prop):
     return lines
 
 
-def shrink(prop, prog):
+def msg_class(msg):
+    """class of a finding message: numbers and bracketed lists removed, first 48 characters"""
+    import re
+    return re.sub(r"[-+]?\d+(\.\d+)?(e[-+]?\d+)?|\[[^\]]*\]", "#", msg)[:48]
+
+
+def shrink(prop, prog, finding=None):
+    """delete steps while the program still fails *in the same way* (same property, same class of
+    message): deleting a step must not turn the program into a different, possibly invalid, request"""
     import campaign
+    want = msg_class(finding[1]) if finding else None
 
     def fails(p):
         r = campaign.run_fixed(p)
-        return any(f[0] == prop for f in r["findings"])
+        return any(f[0] == prop and (want is None or msg_class(f[1]) == want) for f in r["findings"])
 
     try:
         campaign._init()
@@ -204,7 +220,7 @@ def run_program_check(prop, tier, seed):
         print(f"[{prop}] harness problem in {len(S['harness'])} program(s): {f[1][:300]}")
     if S["mine"]:
         (f, prog) = S["mine"][0]
-        small = shrink(prop, prog)
+        small = shrink(prop, prog, f)
         path = CL.write_replay(prop, {"property": prop, "finding": f[1], "step": f[2], "program": small, "original_program": prog,
                                       "how": f"./check {prop} --replay <this file>"})
         print(f"[{prop}] {len(S['mine'])} program(s) violate the property; first: {f[1][:300]}")
